@@ -34,6 +34,9 @@ def run(ctx):
     def per_case(case, res):
         if res["status"] == "ok":
             orc.oracle_c15(ctx, case, res, fp.failer(ctx, case))
+            # "a float consumer never reads integer bytes and an integer consumer never reads float bytes": every operand of
+            # every original operator has the dtype its resolved mode prescribes (the C03 oracle, run on the tied models)
+            orc.oracle_c03(ctx, case, res, fp.failer(ctx, case, prefix="[consumer dtype] "))
             exported_constants(ctx, case, res, fp.failer(ctx, case))
     n = 600 if ctx.tier == "quick" else 4000
     fp.explore(ctx, drv, n // 2, per_case, gen=fp.gen_tied_case, graph_corr=True, pipe_corr=True)
